@@ -152,7 +152,7 @@ def judge_cases(ctx, cases, name, own_prefixes, sig_fn=None, nontrivial_fn=None,
 
 
 def dump_replay(ctx, case, clause, subdir=None):
-    d = os.path.join(VERIF, "replays", ctx.prop if not subdir else os.path.join(ctx.prop, subdir))
+    d = os.path.join(tlc.OUT, "replays", ctx.prop if not subdir else os.path.join(ctx.prop, subdir))
     os.makedirs(d, exist_ok=True)
     body = {"property": ctx.prop, "clause": clause, "tier": ctx.tier, "seed": ctx.seed, "case": case}
     h = case_key(body["case"])
@@ -165,7 +165,7 @@ def dump_replay(ctx, case, clause, subdir=None):
 # ------------------------------------------------------------------------ finishing
 def finish(ctx, level="model_checking"):
     """Print verdict lines, write evidence, return the exit code."""
-    os.makedirs(os.path.join(VERIF, "evidence"), exist_ok=True)
+    os.makedirs(os.path.join(tlc.OUT, "evidence"), exist_ok=True)
     seen_known = {}
     for kf, c in ctx.known_hits:
         seen_known.setdefault(kf["id"], kf)
@@ -219,7 +219,7 @@ def finish(ctx, level="model_checking"):
         "wall_s": round(time.time() - ctx.t0, 2),
         "violations": len(vio_lines),
     }
-    with open(os.path.join(VERIF, "evidence", ctx.prop + ".json"), "w") as f:
+    with open(os.path.join(tlc.OUT, "evidence", ctx.prop + ".json"), "w") as f:
         json.dump(ev, f, indent=1, default=str)
     status = {0: "HELD", 1: "VIOLATED", 2: "MACHINERY-FAILURE"}[code]
     print("%s %s tier=%s seed=%d cases=%d states=%d wall=%.1fs clauses=%s" % (
